@@ -178,6 +178,16 @@ def translate_input_file(tree):
             return "T"
         fail(node, "open(): path argument is neither the destination nor the recognised temporary")
 
+    def open_target(st):
+        """`self._fh = open(<path>, mode, encoding=encoding)` -> "D" | "T", else None"""
+        if isinstance(st, ast.Assign) and len(st.targets) == 1 and D(_load(st.targets[0])) == E("self._fh") \
+                and isinstance(st.value, ast.Call) and D(st.value.func) == E("open"):
+            c = st.value
+            if len(c.args) != 2 or D(c.args[1]) != E("mode") or [k.arg for k in c.keywords] != ["encoding"]:
+                fail(st, "open(): unexpected arguments")
+            return classify_path(c.args[0])
+        return None
+
     def sym_value(node):
         d = D(node)
         if d in sym:
@@ -238,12 +248,31 @@ def translate_input_file(tree):
                     continue
                 fail(st, "unrecognised statement under isfile(path)")
             # self._fh = open(<path>, mode, encoding=encoding)
-            if isinstance(st, ast.Assign) and len(st.targets) == 1 and D(_load(st.targets[0])) == E("self._fh") \
-                    and isinstance(st.value, ast.Call) and D(st.value.func) == E("open"):
-                c = st.value
-                if len(c.args) != 2 or D(c.args[1]) != E("mode") or [k.arg for k in c.keywords] != ["encoding"]:
-                    fail(st, "open(): unexpected arguments")
-                steps.append("O" + classify_path(c.args[0]))
+            if open_target(st) is not None:
+                steps.append("O" + open_target(st))
+                continue
+            # try: self._fh = open(<a>, ...)  except OSError: [self._temp_path = None]; self._fh = open(<b>, ...); [return self]
+            if isinstance(st, ast.Try) and len(st.body) == 1 and open_target(st.body[0]) is not None \
+                    and len(st.handlers) == 1 and not st.orelse and not st.finalbody \
+                    and st.handlers[0].type is not None \
+                    and D(st.handlers[0].type) in (E("OSError"), E("IOError"), E("EnvironmentError"), E("PermissionError"),
+                                                   E("Exception")):
+                first = open_target(st.body[0])
+                hb = list(st.handlers[0].body)
+                forgot = False
+                if hb and D(hb[0]) == S("self._temp_path = None"):
+                    forgot = True
+                    hb = hb[1:]
+                if not hb or open_target(hb[0]) is None:
+                    fail(st, "open(): except branch does not open a file")
+                second = open_target(hb[0])
+                rest = hb[1:]
+                if rest and not (len(rest) == 1 and isinstance(rest[0], ast.Return) and rest[0].value is not None
+                                 and D(rest[0].value) == E("self")):
+                    fail(st, "open(): unrecognised statement in the except branch")
+                if second == "D" and not forgot:
+                    fail(st, "open(): falls back to the destination but keeps self._temp_path")
+                steps.append("OE" + first + second)
                 continue
             if isinstance(st, ast.Return):
                 if st.value is not None and D(st.value) == E("self"):
@@ -303,7 +332,8 @@ def translate_input_file(tree):
     # "N" certainly None, "M" cleared under a condition (the model's [pend] flag follows this name)
     tn = {}
     if temp["parts"] is not None:
-        tn[E("self._temp_path")] = "T"
+        # a fallback branch of open() that clears the field: __exit__ cannot count on it
+        tn[E("self._temp_path")] = "M" if any(x.startswith("OE") for x in steps) else "T"
     seen = {"try": False, "closed": False, "returned": False}
 
     def holders(state):
@@ -340,6 +370,8 @@ def translate_input_file(tree):
     def combine(cond, conds, node):
         if not conds:
             return cond
+        if conds == {"O", "P"} and cond == "A":
+            return "Q"
         if len(conds) > 1:
             fail(node, "__exit__: conjunction of conditions the model cannot express")
         c = next(iter(conds))
@@ -360,7 +392,7 @@ def translate_input_file(tree):
         if st == "T":
             return True
         if st == "M":
-            if cond == "P":
+            if cond in ("P", "Q"):
                 return True
             fail(node, "the temporary's path may already have been cleared here")
         return False
@@ -398,14 +430,22 @@ def translate_input_file(tree):
                     steps.append("FG" + cond)
                     tn[k] = "N" if cond == "A" else "M"
                     continue
+                if tn[k] == "M" and len(holders("M")) > 1 and cond == "A":
+                    tn[k] = "N"       # a copy (taken above) still may hold the path: pure bookkeeping
+                    continue
+                if tn[k] == "M":
+                    steps.append("FG" + cond)
+                    if cond == "A":
+                        tn[k] = "N"
+                    continue
                 fail(st, "the temporary's path is cleared twice")
             # <local> = <name holding the path>
             if isinstance(st, ast.Assign) and len(st.targets) == 1 and isinstance(st.targets[0], ast.Name) \
                     and nm.D(st.value) in tn:
-                if tn[nm.D(st.value)] != "T" or cond != "A":
-                    fail(st, "copy of the temporary's path taken after it may have been cleared")
+                if tn[nm.D(st.value)] not in ("T", "M") or cond != "A":
+                    fail(st, "copy of the temporary's path taken after it has been cleared")
                 nm.bind(st.targets[0], "temp_path")
-                tn[nm.D(st.targets[0])] = "T"
+                tn[nm.D(st.targets[0])] = tn[nm.D(st.value)]
                 continue
             if isinstance(st, ast.Assign) and len(st.targets) == 1 and isinstance(st.targets[0], ast.Name) \
                     and nm.D(st.value) == E("self._temp_path"):
@@ -681,7 +721,7 @@ def wire(ir):
 
 def coq_step(code):
     t = {"D": "Dest", "T": "Temp"}
-    c = {"A": "Always", "O": "IfOk", "E": "IfErr", "P": "IfTemp"}
+    c = {"A": "Always", "O": "IfOk", "E": "IfErr", "P": "IfTemp", "Q": "IfOkTemp"}
     s = {"M": "SMessage", "T": "STitle", "C": "SCells", "S": "SSurfaces", "D": "SData"}
     o = {"F": "Format", "N": "Warn", "W": "WriteLines false", "R": "WriteLines true"}
     simple = {"GE": "GuardExists", "GD": "GuardIsDir", "CM": "CopyMode", "CH": "Children false", "CR": "Children true",
@@ -691,6 +731,8 @@ def coq_step(code):
         return simple[code]
     if code[0] == "O" and len(code) == 2:
         return f"OpenW {t[code[1]]}"
+    if code[:2] == "OE" and len(code) == 4:
+        return f"OpenElse {t[code[2]]} {t[code[3]]}"
     if code[:2] == "RP":
         return f"Replace {c[code[2]]}"
     if code[:2] == "RM":
